@@ -163,9 +163,9 @@ def run_job(job):
 
 def make_jobs(tier, seed):
     rng = random.Random(190000 + seed)
-    jobs = [{'part': 1, 'seed': rng.randrange(1 << 30), 'n': 20, 'i': i} for i in range(16 if tier == 'quick' else 2000)]
+    jobs = [{'part': 1, 'seed': rng.randrange(1 << 30), 'n': 20, 'i': i} for i in range(16 if tier == 'quick' else 12000)]
     i = 0
-    for rep in range(1 if tier == 'quick' else 40):
+    for rep in range(1 if tier == 'quick' else 300):
         for explicit in (False, True):
             for d0 in (False, True):
                 for n0 in (False, True):
